@@ -21,6 +21,7 @@ package service
 //@   ensures[C18.stringparam_missing_optional] !has(m, p) && !required ==> result2 == nil && !result1 && result0 == ""
 //@   ensures[C18.stringparam_string]  has(m, p) && is(m[p], string) ==> result2 == nil && result1 && result0 == m[p].(string)
 //@   ensures[C18.stringparam_not_given_ok] !result1 && !required ==> result2 == nil
+//@   ensures[C18.stringparam_given_flag] has(m, p) == result1
 //@   ensures[C18.stringparam_illtyped] has(m, p) && !is(m[p], string) && !is(m[p], []interface{}) ==> result2 != nil
 //@   ensures[C18.stringparam_array_of_strings_only] has(m, p) && is(m[p], []interface{}) && result2 == nil ==> forall(k, int, 0 <= k && k < len(m[p].([]interface{})) ==> is(m[p].([]interface{})[k], string))
 //@   loop 1: invariant[C18.stringparam_array_loop] forall(k, int, 0 <= k && k <= rangeindex ==> is(m[p].([]interface{})[k], string))
@@ -99,3 +100,8 @@ package service
 // arrive whether it was sent as a query parameter, in a form or in a JSON body)
 //@ func parseParameter
 //@   ensures[C18.untyped_parameter_is_taken_verbatim] !old(has(parameterTypes, p)) ==> result1 == nil && is(result0, string) && result0.(string) == v
+
+// C18/C09: /api/loc/parents reads the parents only when the request carries no "set" (a "set" that is present - even the empty
+// list - is a write)
+//@ func (*Service).ProcessRequest
+//@   assert[C18+C09.parents_are_read_only_without_set] at "s.System.GetParents(ctx, location)": !has(m, "set")
